@@ -41,7 +41,7 @@ type fsEntry struct {
 	// is run under the seeded scheduler (with an all-zero choice sequence) so
 	// that the order of backend operations is reproducible.
 	Concurrent bool
-	Run      func(ctx context.Context, fs filesystem.FS, w *fsCase) error
+	Run        func(ctx context.Context, fs filesystem.FS, w *fsCase) error
 }
 
 type fsCase struct {
